@@ -47,6 +47,7 @@ ENTRIES = [
     ('operator==', 'g', 'd << ((X == Y) ? 1 : 0) << ((X == X) ? 1 : 0);'),
     ('coeffs', 'g', 'd << X.coeffs();'),
     ('data', 'g', 'd << X.data()[0];'),
+    ('data()-on-non-const-variable', 'g', 'auto Xn = X; d << Xn.data()[0] << Xn.coeffs()(0);'),
     ('operator[]', 'g', 'd << X[0];'),
     ('size', 'g', 'd << (int)X.size();'),
     ('cast<float>', 'g', 'd << X.template cast<float>();'),
@@ -100,6 +101,7 @@ ENTRIES = [
     ('t*scalar', 't', 'd << (t * S(2)) << (S(2) * t) << (t / S(2));'),
     ('J*t', 't', 'Ja.setIdentity(); d << (Ja * t);'),
     ('tangent-coeffs', 't', 'd << t.coeffs() << t.data()[0] << t[0] << (int)t.size();'),
+    ('tangent-data()-on-non-const-variable', 't', 'auto tn = t; d << tn.data()[0] << tn.coeffs()(0);'),
     ('tangent-cast', 't', 'd << t.template cast<float>() << t.template cast<double>();'),
     ('tangent-stream<<', 't', 'std::ostringstream o; o << t; d << (int)o.str().size();'),
     ('tangent-copy', 't', 'T z(t); T y; y = t; d << z << y;'),
